@@ -62,29 +62,53 @@ def gen_case(rng, cid, k, scale=1):
     return ops
 
 
-def with_alone(exe, ops):
-    """Run every workload alone (single-threaded process) and append `alone=<digest>` to its op line.
-    Returns (ops with alone=, dropped case count)."""
-    res, faults = core.run_harness_lines(exe, ["alone"], ops, case_start=("case",), env=TSAN_ENV)
-    out, dropped = [], 0
-    cases, rcases = corr.split_cases(ops, ("case",)), []
-    i = 0
-    for c in cases:
-        rcases.append(res[i:i + len(c)])
-        i += len(c)
-    for c, r in zip(cases, rcases):
-        if any(x.startswith("FAULT") or x == "SKIP" or " EXITFAULT " in x for x in r):
-            dropped += 1
-            continue
-        for op, x in zip(c, r):
-            w = op.split(" ")
-            if w[0] == "w" and w[2] != "crc":
-                m = re.match(r"w \S+ seq=(\S+)$", x)
-                if not m:
-                    raise RuntimeError(f"alone pass: unexpected harness answer {x!r} to {op!r}")
-                op = " ".join(w[:5]) + " alone=" + m.group(1)
-            out.append(op)
-    return out, dropped
+ALONE_ENV = {"ASAN_OPTIONS": "detect_leaks=0:abort_on_error=0:exitcode=99:allocator_may_return_null=1",
+             "UBSAN_OPTIONS": "print_stacktrace=1:halt_on_error=1:exitcode=98"}
+
+
+def with_alone(exe_alone, ops, dropped=None):
+    """Run every workload alone (single-threaded process of the ASan/UBSan build) and append `alone=<digest>` to its
+    op line.  A workload whose run-alone execution is not memory-safe / UB-free is outside the hypothesis of C18
+    (that is C01's business): it is removed from its case and counted in `dropped` (kind -> [count, fault summary])."""
+    dropped = dropped if dropped is not None else {}
+    cases = corr.split_cases(ops, ("case",))
+    done = {}
+    todo = list(range(len(cases)))
+    for _round in range(6):
+        if not todo:
+            break
+        flat = [l for ci in todo for l in cases[ci]]
+        res, _faults = core.run_harness_lines(exe_alone, ["alone"], flat, case_start=("case",), env=ALONE_ENV)
+        i, again = 0, []
+        for ci in todo:
+            c = cases[ci]
+            r = res[i:i + len(c)]
+            i += len(c)
+            bad = [j for j, x in enumerate(r) if x.startswith("FAULT") or " EXITFAULT " in x]
+            if bad:
+                j = bad[0]
+                w = c[j].split(" ")
+                if w[0] != "w":
+                    raise RuntimeError(f"alone pass: fault outside a workload: {c[j]!r} -> {r[j]!r}")
+                e = dropped.setdefault(w[2], [0, r[j][:160]])
+                e[0] += 1
+                cases[ci] = c[:j] + c[j + 1:]
+                again.append(ci)
+                continue
+            out = []
+            for op, x in zip(c, r):
+                w = op.split(" ")
+                if w[0] == "w" and w[2] != "crc":
+                    m = re.match(r"w \S+ seq=(\S+)$", x)
+                    if not m:
+                        raise RuntimeError(f"alone pass: unexpected harness answer {x!r} to {op!r}")
+                    op = " ".join(w[:5]) + " alone=" + m.group(1)
+                out.append(op)
+            done[ci] = out
+        todo = again
+    if todo:
+        raise RuntimeError("alone pass: cases keep faulting after removing the faulting workloads")
+    return [l for ci in sorted(done) for l in done[ci]], dropped
 
 
 def strip_alone(ops):
@@ -179,12 +203,16 @@ def run(chk):
     m = re.match(r"selftest races=(\d+)", st[0] if st else "")
     if not m or int(m.group(1)) == 0:
         raise RuntimeError(f"ThreadSanitizer self-test did not report the deliberate race: {st!r}")
+    exe_alone, err = core.build_harness(HARNESS, san="asan")
+    if exe_alone is None:
+        chk.violation("harness (asan) does not build: " + err[-1500:], ["build-error"], nofail=True)
+        return
     rng = random.Random(chk.seed)
     sig_of = make_sig_of(exe)
     per_k = 30 if chk.tier == "quick" else 300
     scale = 1 if chk.tier == "quick" else 2
     total = corr.collections.Counter()
-    dropped = 0
+    dropped = {}
     cid = 0
     batches = 1 if chk.tier == "quick" else 10
     for b in range(batches):
@@ -193,8 +221,7 @@ def run(chk):
             for _ in range(per_k // batches if batches > 1 else per_k):
                 cid += 1
                 ops += gen_case(rng, cid, k, scale)
-        ops, d = with_alone(exe, ops)
-        dropped += d
+        ops, _ = with_alone(exe_alone, ops, dropped)
         total += corr.correspond(chk, AREA, exe, ops, case_start=("case",), classify=classify, sig_of=sig_of, env=TSAN_ENV)
     found = total.get("spec", 0) + total.get("fault", 0)
     if problems and not found:
@@ -214,8 +241,7 @@ def run(chk):
                     else:
                         ops.append(f"w {t} {kind} {hi} {seed if rep == 0 else srng.randrange(1, 2**40)}")
                 ops.append(f"go {srng.randrange(2**32)} 4")
-        ops, d = with_alone(exe, ops)
-        dropped += d
+        ops, _ = with_alone(exe_alone, ops, dropped)
         total += corr.correspond(chk, AREA, exe, ops, case_start=("case",), classify=classify, sig_of=sig_of, env=TSAN_ENV)
         found = total.get("spec", 0) + total.get("fault", 0)
     for p in problems:
@@ -232,7 +258,8 @@ def run(chk):
     stat_ops = [f"stat {k} {ITERS[k][1]} {chk.seed}" for k in KINDS if k != "crc"]
     sres, _ = core.run_harness_lines(exe, ["alone"], stat_ops, env=TSAN_ENV)
     chk.extra["workload_coverage"] = {o.split(" ")[1]: " ".join(r.split(" ")[2:]) for o, r in zip(stat_ops, sres)}
-    chk.extra["cases_dropped_because_the_run_alone_pass_faulted"] = dropped
+    chk.extra["workloads_excluded_because_their_run_alone_execution_faulted_under_asan_ubsan"] = \
+        {k: {"count": v[0], "first": v[1]} for k, v in sorted(dropped.items())}
     chk.extra["thread_counts"] = THREAD_COUNTS
     chk.extra["modelled_not_proved"] = [
         "that the C++ functions respect the footprints of the generated table (syntactic scan + TSan runs)",
@@ -248,11 +275,12 @@ def run(chk):
         "C++11 thread-safe initialisation of function-local statics (g++ default, -fno-threadsafe-statics not used)",
         "libc / OpenSSL callees in Threads/Policy.lean `mtSafe` are MT-safe on distinct objects (glibc manual, OpenSSL >= 1.1); HMAC is always called with a caller-owned output buffer",
         "libstdc++ containers/strings/streams are race-free on distinct objects ([res.on.data.races]); operator new/delete are thread-safe",
+        "hypothesis: the run-alone execution of a workload is memory-safe and UB-free (ASan/UBSan build); workloads that are not are excluded and counted (that is C01's property)",
         "TSan detects happens-before races among accesses it instruments (libtins and harness code; uninstrumented libcrypto/libpcap internals are not seen)",
     ]
     chk.trusted += ["translator/gen_staticvars.py (clang-14 JSON AST + nm cross-check)",
                     "correspondence harness harness/c18_threads.cpp + generators in checks/C18.py",
-                    "g++ 12 ThreadSanitizer build of the repo's working tree (hooks on)"]
+                    "g++ 12 ThreadSanitizer build (concurrent runs) and ASan/UBSan build (run-alone reference) of the repo's working tree (hooks on)"]
     corr.finalize_cov(chk)
 
 
@@ -273,7 +301,14 @@ def replay(path):
         if problems:
             print(f"VIOLATION property=C18 replay={path} no-failing-input-found")
         return 1 if problems else 0
-    ops, _ = with_alone(exe, strip_alone(ops))     # run-alone digests of the tree being replayed on
+    exe_alone, err = core.build_harness(HARNESS, san="asan")
+    if exe_alone is None:
+        print("harness (asan) does not build:", err[-2000:])
+        return 1
+    excluded = {}
+    ops, _ = with_alone(exe_alone, strip_alone(ops), excluded)     # run-alone digests of the tree being replayed on
+    if excluded:
+        print("workloads whose run-alone execution faults under ASan/UBSan (outside C18's hypothesis):", excluded)
     impl, mod, spec, faults = corr.evaluate(AREA, exe, ops, ("case",), env=TSAN_ENV)
     bad = corr.first_problem(ops, impl, mod, spec)
     for o, a, b, c in zip(ops, impl, mod, spec):
